@@ -130,7 +130,7 @@ def one_run(params):
         def client_queries():
             return [ev for ev in k.log if ev[1] == "send" and ev[2] == "cli0"]
 
-        def inject(matched):
+        def inject(matched, focus=False):
             """The spoofer answers the client's most recent query (matched) or an invented one (unmatched, with a planted packet)."""
             qs = client_queries()
             if not qs:
@@ -159,6 +159,22 @@ def one_run(params):
                 d = hostile_cli.gen(rng, q, cls, "D", ctx)
                 state["classes"].add(cls)
                 state["hostile"] += 1
+            elif params.get("unmatched_only") and (focus or rng.random() < 0.6):
+                # a hostile answer (any class) to a query the client never sent: same question name, an id it has not used
+                recent = {struct.unpack_from(">H", ev[3]["data"], 0)[0] for ev in qs[-12:] if len(ev[3]["data"]) >= 2}
+                bad_id = rng.randrange(65536)
+                while bad_id in recent:
+                    bad_id = rng.randrange(65536)
+                cls = params["focus"] if (focus or rng.random() < 0.5) else rng.choice(params["classes"])
+                labels, qt, _cl = q.qd[0]
+                d = hostile_cli.gen(rng, proto.parse_msg(proto.build_query(bad_id, list(labels), qt)), cls, "D", ctx)
+                if not isinstance(d, (bytes, bytearray)) or len(d) < 2 or struct.unpack_from(">H", d, 0)[0] != bad_id:
+                    return
+                unmatched_dgrams[bytes(d)] = (0, bad_id)
+                state["classes"].add(cls)
+                state["steps"].add("unmatched")
+                state["hostile"] += 1
+                out["stats"]["hostile_unmatched"] = out["stats"].get("hostile_unmatched", 0) + 1
             else:
                 recent = set()
                 for ev in qs[-12:]:
@@ -210,12 +226,31 @@ def one_run(params):
                 t_end = min(t_end, k.now + params["tunnel_s"] * US)
             if kind in ("tunnel", "real") or (kind == "handshake" and params.get("spoof")):
                 if rng.random() < params.get("p_inject", 0.3):
-                    inject(matched=rng.random() < 0.5)
+                    inject(matched=rng.random() < 0.5 and not params.get("unmatched_only"))
             if in_tunnel_t is not None and rng.random() < 0.5:
                 ident += 1
                 k.offer_tun("cli0", proto.make_frame("10.9.0.2", "10.9.0.1", ident, rng.choice([40, 200, 1000]), "random", rng), ident)
                 if srv is not None and rng.random() < 0.5:
                     k.offer_tun("srv", proto.make_frame("10.9.0.1", "10.9.0.2", 1000 + ident, rng.choice([40, 200, 1000]), "random", rng), ident)
+        probes = None
+        if params.get("unmatched_only") and srv is not None and in_tunnel_t is not None and c.alive() and srv.alive() and k.stalled is None \
+                and not any(ev[1] == "send" and ev[2] == "cli0" and ev[3]["data"][:3] == proto.RAW_MAGIC for ev in k.log):
+            # nothing but replies that match none of its queries came from the spoofer: once they stop, the session is what it
+            # would have been without them, so packets offered at the server still reach the client's tun
+            for _j in range(4 if params.get("p_inject") else 0):
+                inject(False, focus=True)          # (the last things the spoofer sends are of the run's focus class)
+                k.run(k.now + 300000)
+            k.run(k.now + 3 * US)
+            probes = []
+            fs = [r["fragsize"] for r in (srv.snapshot or []) if r["active"] and r["fragsize"] >= 50]
+            fs = min(fs) if fs else 100
+            for j in range(3):
+                # one-fragment, about 4-fragment and about 7-fragment packets at the session's fragment size (16 is the limit)
+                f = bytes(proto.make_frame("10.9.0.1", "10.9.0.2", 50000 + j, [40, min(3 * fs, 1500), min(6 * fs, 3000)][j], "random", rng))
+                probes.append(f)
+                k.offer_tun("srv", f, 50000 + j)
+                k.run(k.now + 2 * US)
+            k.run(k.now + 10 * US)
         out["evaluations"] = state["hostile"] + out["stats"]["planted_unmatched"]
         out["stats"]["hostile_answers"] = state["hostile"]
         out["stats"]["runs_with_hostile_lazyoff_answer"] = int("LAZYOFF" in state["steps"])
@@ -242,6 +277,7 @@ def one_run(params):
         prev_state = None
         got = []
         sent_ids = []
+        became_matched = 0
         for ev in k.log:
             if ev[2] != "cli0":
                 continue
@@ -252,6 +288,8 @@ def one_run(params):
                 um = unmatched_dgrams.get(d)
                 ok_um = um is not None and not (um[0] == 0 and um[1] in sent_ids[-12:])
                 got.append("unmatched" if ok_um else "other")
+                if um is not None and not ok_um:
+                    became_matched += 1
             elif ev[1] == "tun_read":
                 got.append("other")
             elif ev[1] == "wait" and "cstate" in ev[3]:
@@ -264,6 +302,15 @@ def one_run(params):
                                                   % (prev_state, cur), dict(wit, time_us=ev[0])))
                 prev_state = cur
                 got = []
+        if probes is not None and c.alive() and srv.alive() and not became_matched:
+            out["stats"]["unmatched_only_runs_probed"] = 1
+            wrote = {bytes(ev[3]["data"]) for ev in k.log if ev[1] == "tun_write" and ev[2] == "cli0"}
+            out["probe_missing"] = [j for j, f in enumerate(probes) if f not in wrote]
+            if out["probe_missing"] and params.get("p_inject"):
+                # (judged in scn(): only what the same session delivers when the spoofer stays silent is demanded)
+                out["probe_violation"] = ("C06:unmatched-replies-left-the-tunnel-dead",
+                                          "after %d datagrams that match none of the client's queries (and nothing else from the spoofer) not all 3 packets (of about 1, 4 and 7 fragments) offered at the server over 16 s reached the client's tun, although they do when the spoofer stays silent"
+                                          % len(unmatched_dgrams), dict(wit, classes=sorted(state["classes"])))
         # a raw-mode frame is self-contained: whatever the client writes to its tun because of a raw datagram must be
         # exactly what that datagram's own bytes inflate to (runts, foreign commands and cut-off streams deliver nothing)
         rcvd = {}
@@ -321,6 +368,19 @@ def _dummy_q():
 
 def scn(params):
     out = one_run(params)
+    pv = out.pop("probe_violation", None)
+    missing = out.pop("probe_missing", None)
+    if pv is not None and not out["violations"]:
+        # the same session with a silent spoofer: a configuration that cannot carry a probe packet anyway (a forced -m beyond what
+        # the record type holds, ...) is not held against the client
+        twin = one_run(dict(params, p_inject=0))
+        tm = twin.pop("probe_missing", None)
+        out["stats"]["unmatched_only_twin_runs"] = 1
+        if tm is None or twin.get("violations") or twin.get("stalled"):
+            out["inconclusive"] = out.get("inconclusive") or "probe-twin-not-judgeable"
+        elif set(missing) - set(tm):
+            key, what, wit = pv
+            out["violations"].append((key, what + " (probe packets %r missing; with a silent spoofer only %r)" % (missing, tm), wit))
     if out.pop("stalled", False):
         out2 = one_run(params)
         if out2.pop("stalled", False):
@@ -358,6 +418,13 @@ def gen_params(rng, i, seed):
         if p["focus"] in ("frag_flood", "compressed_many", "huge_rdata") and kind == "tunnel":
             # the classes that need volume get it: every ping/data answer hostile, the large-answer record types, a long run
             p.update(p_hostile=1.0, qtype=["MX", "SRV", "MX", "TXT"][(i // 95) % 4], tunnel_s=40, lazy0=False, m=None)
+        if kind == "real" and (i // 5) % 2 == 0:
+            p["unmatched_only"] = True         # the spoofer never matches a query: the session must come out unharmed
+            p["noraw"] = True
+            if (i // 10) % 3 == 0:
+                p["focus"] = ["cut_after_records", "names_fill_exactly", "many_records", "truncate"][(i // 30) % 4]
+                p["qtype"] = ["MX", "SRV"][(i // 120) % 2]
+                p["p_inject"] = 0.6
         if kind == "tunnel" and rng.random() < 0.4:
             p["starve"] = True                 # answers dry up: the client falls back to -I1, then leaves lazy mode in mid-tunnel
             p["tunnel_s"] = 58
